@@ -92,3 +92,28 @@ func BarrierSafety(sc sim.Scenario, h *sim.History) []Problem {
 	}
 	return probs
 }
+
+// LimitSafety judges the first clause of C06 on any server history, also one
+// with stops and restarts: going through the handler log, the number of
+// handlers that have entered and not yet exited never exceeds the Concurrency
+// option.  (A handler logs its exit before its slot is given back, so the log
+// can only under-count.)
+func LimitSafety(sc sim.Scenario, h *sim.History) []Problem {
+	limit := sc.Cfg.Concurrency
+	if limit <= 0 {
+		return nil
+	}
+	running := map[int]bool{}
+	for _, e := range h.Events {
+		switch e.Kind {
+		case "enter":
+			running[e.Inv] = true
+			if len(running) > limit {
+				return []Problem{{Sig: "C06/limit-exceeded", Msg: fmt.Sprintf("at #%d (handler nonce %d enters) %d handlers are executing, the limit is %d", e.Seq, e.K, len(running), limit)}}
+			}
+		case "exit":
+			delete(running, e.Inv)
+		}
+	}
+	return nil
+}
